@@ -117,6 +117,19 @@ CHECKS = {
              "scales, zero-points, qtypes, activation scales, outputs and second state_dict.",
         note="Known findings C10-F17 (LayerNorm with activations through requantize/default target) and C10-F18 (group "
              "size lost for unfrozen int2/int4 on those targets) are matched by mechanism."),
+    "C15": dict(
+        technique="runtime monitor under python -O (CUDA asserts compiled out, same index arithmetic on CPU tensors): "
+                  "position-permutation recovery with tagged inputs, reference-packer identity, representation-equivalence "
+                  "and conversion-back oracles",
+        level="exploration", ref="4/C15",
+        text="For every admissible shape in the bound the real AWQ v1 (with/without reorder) and v2 packers are run on "
+             "position-tagged inputs that recover, for every output nibble, the input position it carries (must be a "
+             "bijection, unpack its inverse, independent of values and of earlier packings in the process); v2 payloads "
+             "must equal external/awq pack_intweight bit for bit; float16 group-128 int4 weights must dequantize alike in "
+             "both representations and convert back (qbits_tensor / save_to_state_dict) to identical codes, scales and "
+             "zero-points.",
+        note="Assumes reshape/permute/shift/or behave the same on CPU and CUDA. The selection of the AWQ class and the "
+             "device-move glue need a CUDA device and are not executed; CUDA gemm kernels are out of reach."),
 }
 
 PLANNED = {}
